@@ -586,7 +586,7 @@ def m3(cx):
                     v = st.value
                     for t in st.targets:
                         # alias: <obj>.<cache> = <other obj>.<cache>  (no copy call around it)
-                        if isinstance(t, ast.Attribute) and t.attr in CACHE_ATTRS and isinstance(v, ast.Attribute) and v.attr in CACHE_ATTRS + ("offsets", "shape", "strides") and norm(v.value) not in ("cls", "self.__class__"):
+                        if isinstance(t, ast.Attribute) and (t.attr in CACHE_ATTRS or (t.attr in ("offsets", "shape", "strides") and norm(t.value) == "info")) and isinstance(v, ast.Attribute) and v.attr in CACHE_ATTRS + ("offsets", "shape", "strides") and norm(v.value) not in ("cls", "self.__class__"):
                             alias.append(st)
                         # in place: <obj>.<cache>[k] = ...
                         if isinstance(t, ast.Subscript) and isinstance(t.value, ast.Attribute) and t.value.attr in CACHE_ATTRS and norm(t.value.value) not in ("cls",):
@@ -605,6 +605,30 @@ def m3(cx):
                     f = st.value.func
                     if f.attr in ("update", "pop", "clear", "setdefault", "popitem", "fill", "sort", "resize", "itemset") and isinstance(f.value, ast.Attribute) and f.value.attr in CACHE_ATTRS and norm(f.value.value) != "cls":
                         inplace.append(st)
+    # which caches are BUFFER-BACKED for a view handle?  (a numpy window onto the bytes of the object in its buffer:
+    # `_array_from_buffer(...)` / `to_nplike(...)` without a copy).  Such a cache changes whenever those bytes are
+    # rewritten, so it may never be handed to ANOTHER handle (a copy would read the source's current table):
+    backed = set()
+    for modname in ("struct", "array"):
+        for fn in m.all_functions(modname):
+            if fn.name not in ("_from_buffer", "__setstate__"):
+                continue
+            for st in own_nodes(fn):
+                if isinstance(st, ast.Assign):
+                    for t in st.targets:
+                        if isinstance(t, ast.Attribute) and t.attr in CACHE_ATTRS and norm(t.value) == "self":
+                            v = norm(st.value)
+                            if ("_array_from_buffer(" in v or "to_nplike(" in v or "frombuffer(" in v) and ".copy()" not in v and "np.array(" not in v:
+                                backed.add((modname, t.attr))
+    for a in list(alias):
+        fn = m.enclosing_func(a)
+        modname = a.modname
+        v = a.value
+        src_obj = norm(v.value)
+        from_other_handle = src_obj not in ("self", "info", "cls") and not src_obj.startswith("self.")
+        if from_other_handle and (modname, "_" + v.attr.lstrip("_")) in backed:
+            cx.bad(a, construct=f"{m.qualname(a).split('::')[1]}: {short(a, 90)}", detail=f"`{src_obj}.{v.attr}` of a handle read out of a buffer is a live window onto that object's bytes (see {modname}::_from_buffer); handing it to the plan / handle of ANOTHER object makes the copy locate its items through the SOURCE's table: after the source is rewritten in place the copy reads garbage", sub="backed")
+            alias.remove(a)
     cx.need(len(alias) >= 2, "alias sites of the handle caches (plan <- source handle, handle <- plan) not found")
     for a in alias:
         cx.ok(a, construct=f"shared: {short(a, 100)}", detail="the cache container is handed on without a copy: sound while nobody edits it in place", nf=f"in-place editors in the package: {len(inplace)}")
